@@ -8,7 +8,7 @@ import (
 	"verifharness/vk"
 )
 
-var blasFaults = []string{"m", "n", "k", "kl", "ku", "incx", "incy", "lda", "ldb", "ldc", "shortA", "shortB", "shortC", "shortX", "shortY", "badTA", "badTB", "badUplo", "badDiag", "badSide"}
+var blasFaults = []string{"m", "n", "k", "kl", "ku", "incx", "incy", "lda", "ldb", "ldc", "shortA", "shortB", "shortC", "shortX", "shortY", "badTA", "wrongTA", "badTB", "badUplo", "badDiag", "badSide"}
 
 // faultsFor lists the single faults that exist in the signature of a family.
 func faultsFor(c blaskit.Case) []string {
@@ -47,8 +47,14 @@ func faultsFor(c blaskit.Case) []string {
 		add("m", "n", "lda", "ldb", "ldc", "shortA", "shortB", "shortC", "badUplo", "badSide")
 	case "syrk":
 		add("n", "k", "lda", "ldc", "shortA", "shortC", "badUplo", "badTA")
+		if c.Prec == "C" || c.Prec == "Z" {
+			add("wrongTA", "wrongTA")
+		}
 	case "syr2k":
 		add("n", "k", "lda", "ldb", "ldc", "shortA", "shortB", "shortC", "badUplo", "badTA")
+		if c.Prec == "C" || c.Prec == "Z" {
+			add("wrongTA", "wrongTA")
+		}
 	case "trmm", "trsm":
 		add("m", "n", "lda", "ldb", "shortA", "shortB", "badUplo", "badSide", "badTA", "badDiag")
 	case "nrm2", "asum", "iamax", "scal", "rscal":
